@@ -944,6 +944,9 @@ def render_unit(rng, proj, mod, unit, host, ind, knobs):
     for a in loc.get("implicit_arrays", []):
         out.append(f"{ind}  dimension {a}(10)")
     stmts = [r_stmt(s) for s in unit["body"]]
+    if knobs.get("respace"):
+        stmts = [knobs["respace"](x) for x in stmts]
+    unit["srcs"] = stmts
     out += layout_statements(rng, stmts, knobs)
     if k == "function":
         out.append(f"{ind}  {unit['name']} = 1")
